@@ -4,11 +4,11 @@ CONSTANTS
   MaxIn = 0
   Faults = {}
   MaxCopies = 2
-  Sizes = {0, 1, 2, 3, 9, 10, 14, 15, 24, 29, 30, 44}
+  Sizes = {0, 1, 2, 14, 15, 29, 30, 44}
   MaxMsgs = 3
   PH = 12
   CH = 4
-  MTUs = {17, 18, 19, 26, 30, 31, 40, 45, 46, 60}
+  MTUs = {17, 18, 19, 30, 31, 45, 46, 60}
   PIDSPACE = 4
   FirstPID = 3
   Levels = {0, 6}
